@@ -393,9 +393,10 @@ def retired_namesake_skipped(P, R, rule='C17.GRD.4'):
     """A reload that re-spells a service retires the old entry and adds a new one; while a client still waits for the
     old one both are in the table under names that differ in case only.  The class module's question "did <service>
     accept this client" is answered from the first entry whose name matches without regard to case - so an entry that
-    is no longer configured may answer only for a client that has a bit in it; for any other client the search goes on
-    to the entry a fresh daemon would have (its only one).  In the exported lookup, every return reached under a name
-    match comes after a test that the entry is configured or that the client has a bit for its slot."""
+    is no longer configured answers for nobody: it is in the table only because some OTHER client still waits for it (so
+    whether it is there at all depends on the other clients' traffic), and a fresh daemon on the current file has no
+    such service.  In the exported lookup, every return reached under a name match comes after a test that the entry is
+    configured."""
     n = 0
     for f in P.unit_fns('modules/iauth_xquery.c'):
         if f.static or not any(p_['t'].startswith('const char') for p_ in f.param_info):
@@ -420,8 +421,6 @@ def retired_namesake_skipped(P, R, rule='C17.GRD.4'):
             l, op, rr = r
             if isinstance(l, dict) and l.get('k') == 'mem' and l.get('field') == 'configured' and op == '!=' and const_of(rr) == 0:
                 return True
-            if isinstance(l, dict) and l.get('k') == 'bin' and l.get('op') == '&' and isinstance(l.get('l'), dict) and l['l'].get('k') == 'mem' and l['l'].get('field', '').endswith('_mask') and op == '!=' and const_of(rr) == 0:
-                return True
             return st
 
         def on_event(st, t):
@@ -433,7 +432,7 @@ def retired_namesake_skipped(P, R, rule='C17.GRD.4'):
         for s in rets:
             sts = before.get(s.key, set())
             n += 1
-            R.ob(rule, bool(sts) and all(sts), s, 'an entry whose name matches answers for the client only if it is configured or the client has a bit in its slot (a retired namesake the client never asked is passed over)', key='namesake:%s' % f.name)
+            R.ob(rule, bool(sts) and all(sts), s, 'an entry whose name matches answers only while it is configured (a retired entry - a namesake spelled differently before a reload, or one kept by another client\'s pending query - is passed over)', key='namesake:%s' % f.name)
     R.floor(rule, 3, 'returns of the exported service lookup under a name match')
 
 
